@@ -53,7 +53,7 @@ def tie(ctx, cases=None):
         p = os.path.join(VERIF, "findings", w)
         if os.path.exists(p):
             ts.append(ctx.tie("rdvb-witness-" + w[:-5], [h, "run", p], [drv]))
-    n = cases or (6000 if ctx.quick else 120000)
+    n = cases or (6000 if ctx.quick else 30000)
     tier = [] if ctx.quick else ["--tier", "thorough"]
     ts.append(ctx.tie("rdvb-conc-histories",
                       [h, "gen", "--seed", str(ctx.seed), "--cases", str(n), "--mode", "conc", "--flavours", FLAVOURS] + tier,
